@@ -76,14 +76,13 @@ theorem applyRest_define (file : List Line) (o : ApplyOpts) (pt : Patch) (sym : 
       s.skip = false → s.offErr = 0 → s.rejected = [] → s.cursor = c →
       (∀ h ∈ hs, ∀ pl ∈ h.lines, pl.line.newline ≠ .none) →
       (∀ h ∈ hs, ∀ pl ∈ h.lines, notDirective sym pl.line) →
-      (∀ h ∈ hs, grouped h.lines = true) →
       ∃ s' outs, applyRest file o pt s num hs = .ok s' ∧ s'.rejected = [] ∧ s'.cursor ≤ file.length ∧
         s'.out = s.out ++ outs ∧
         ∀ d, Seg sym d (outs.map Out.line ++ file.drop s'.cursor) (if d then splice file c hs else file.drop c) := by
   intro hs
   induction hs with
   | nil =>
-    intro s num c d0 hv hskip hoff hrej hcur _ _ _
+    intro s num c d0 hv hskip hoff hrej hcur _ _
     cases hv with
     | nil _ _ hc =>
       refine ⟨s, [], rfl, hrej, by omega, by simp, ?_⟩
@@ -92,18 +91,17 @@ theorem applyRest_define (file : List Line) (o : ApplyOpts) (pt : Patch) (sym : 
         Seg.plain sym d _ (fun l hl => hfileD l (List.mem_of_mem_drop hl))
       cases d <;> simpa [splice, hcur] using hpl
   | cons h hs ih =>
-    intro s num c d0 hv hskip hoff hrej hcur hT hDir hG
+    intro s num c d0 hv hskip hoff hrej hcur hT hDir
     cases hv with
     | cons _ _ _ _ p hwf hpos hcp hfile hle hnew hD2 hv' =>
       have hloc := locate_valid file h o.ignoreWhitespace o.maxFuzz c p hF hwf hpos hcp hfile hle hD2
-      obtain ⟨outsH, hw, hsegH⟩ := writeDefineHunk_seg file sym h.lines p hwf.1
-        (hT h List.mem_cons_self) (hDir h List.mem_cons_self) hfile (hG h List.mem_cons_self)
+      obtain ⟨outsH, hw, hsegH⟩ := writeDefineHunk_seg' file sym h.lines p hwf.1
+        (hT h List.mem_cons_self) (hDir h List.mem_cons_self) hfile
       obtain ⟨s1, hfin, h1skip, h1off, h1rej, h1cur, h1out⟩ :=
         finishHunk_define file o pt s num h p _ sym outsH hsym hD hskip hoff hrej (by omega) hw
       obtain ⟨s', outsR, hrest, hrej', hcur', hout', hsegR⟩ :=
         ih s1 (num + 1) (p + (oldOf h.lines).length) _ hv' h1skip h1off h1rej h1cur
           (fun h' hh => hT h' (List.mem_cons_of_mem _ hh)) (fun h' hh => hDir h' (List.mem_cons_of_mem _ hh))
-          (fun h' hh => hG h' (List.mem_cons_of_mem _ hh))
       refine ⟨s', copyRange file c (p - c) ++ outsH ++ outsR, ?_, hrej', hcur', ?_, ?_⟩
       · rw [applyRest, hoff, hcur, hloc]
         simp only [hfin, hrest]
@@ -150,8 +148,9 @@ theorem groupedGo_minus_plus_ctx (st : Nat) (hst : st = 0 ∨ st = 1) (dels adds
     rw [List.map_cons, List.cons_append, groupedGo.eq_def]
     rcases hst with rfl | rfl <;> simp [MINUS_ne_SP] <;> apply ih <;> simp
 
-/-- **C20**: for every file and every valid script whose lines are all terminated and free of the four directives,
-    with `-D sym`: apply_patch returns; read by a preprocessor with `sym` defined the output is exactly the new file,
+/-- **C20**: for every file and every valid script whose lines are all terminated and free of the four directives
+    (NO assumption on the order of '-' and '+' lines inside a hunk: since `write_define_hunk` distinguishes the `#else`
+    of an `#ifndef` from the `#else` of an `#ifdef`, runs like `- + - +` are merged correctly too), with `-D sym`: apply_patch returns; read by a preprocessor with `sym` defined the output is exactly the new file,
     with `sym` undefined exactly the original; in particular every conditional opened is closed (`cppEval` is `some`),
     and nothing is rejected. Covers hunks at the first and last line, creation from an empty file (file = []),
     deletion of everything (splice = []). -/
@@ -161,8 +160,7 @@ theorem C20_merge (file : List Line) (hs : List Hunk) (p0 : Patch) (o : ApplyOpt
     (hfileT : ∀ l ∈ file, l.newline ≠ .none)
     (hpatchT : ∀ h ∈ hs, ∀ pl ∈ h.lines, pl.line.newline ≠ .none)
     (hfileD : ∀ l ∈ file, notDirective sym l)
-    (hpatchD : ∀ h ∈ hs, ∀ pl ∈ h.lines, notDirective sym pl.line)
-    (hg : ∀ h ∈ hs, grouped h.lines = true) :
+    (hpatchD : ∀ h ∈ hs, ∀ pl ∈ h.lines, notDirective sym pl.line) :
     ∃ r, applyPatch file p0 o tty = .ok r ∧
       cppEval sym true (r.out.map Out.line) = some (splice file 0 hs) ∧
       cppEval sym false (r.out.map Out.line) = some file ∧
@@ -198,14 +196,14 @@ theorem C20_merge (file : List Line) (hs : List Hunk) (p0 : Patch) (o : ApplyOpt
       cases d <;> simpa [splice] using hpl) rfl
     simpa [hhs] using this
   | cons h0 rest =>
-    rw [hhs] at hv hpatchT hpatchD hg
+    rw [hhs] at hv hpatchT hpatchD
     have hv0 := hv
     cases hv with
     | cons _ _ _ _ p hwf hpos hcp hfile hle hnew hD2 hv' =>
       have hloc := locate_valid file h0 o.ignoreWhitespace o.maxFuzz 0 p hF hwf hpos hcp hfile hle hD2
       obtain ⟨s', outs, hrest, hrej', hcur', hout', hseg⟩ :=
         applyRest_define file o p0 sym hsym hD hF hfileD (h0 :: rest) { tty := tty } 0 0 0 hv0 rfl rfl rfl rfl
-          hpatchT hpatchD hg
+          hpatchT hpatchD
       rw [applyRest] at hrest
       simp only [hloc] at hrest ⊢
       have hsc : shouldCheckReversed (some ⟨(p : Int), 0, 0⟩) o = false := by simp [shouldCheckReversed]
@@ -233,11 +231,63 @@ theorem defineLoop_context_outside (file : List Line) (sym : Bytes) (pl : PatchL
   simp [hop, hl]
 
 /-- all three diff emitters and both orders of `hunk_from_context_parts` only produce grouped hunks: a run of
-    deletions followed by a run of additions is grouped -/
+    deletions followed by a run of additions is grouped (a fact about `grouped`; `C20_merge` no longer needs it) -/
 theorem grouped_minus_plus (ctx1 : List Line) (dels adds : List Line) (ctx2 : List Line) :
     grouped (ctx1.map (⟨SP, ·⟩) ++ dels.map (⟨MINUS, ·⟩) ++ adds.map (⟨PLUS, ·⟩) ++ ctx2.map (⟨SP, ·⟩)) = true := by
   unfold grouped
   rw [List.append_assoc, List.append_assoc, groupedGo_ctx_append]
   exact groupedGo_minus_plus_ctx 0 (by omega) dels adds ctx2
+
+/-! ### non-vacuity on the case the old state machine got wrong: the alternating hunk `-a +b -c +d` -/
+
+/-- a line that does not start with `#` is none of the four directives, whatever the symbol -/
+theorem notDirective_of_head (sym : Bytes) (c : UInt8) (cs : Bytes) (nl : NewLine) (hc : c ≠ 35) :
+    notDirective sym ⟨c :: cs, nl⟩ := by
+  unfold notDirective dIfdef dIfndef dElse dEndif
+  rw [str_ifdef, str_ifndef, str_else, str_endif]
+  simp [hc]
+
+def altA : Line := ⟨[97], .lf⟩
+def altB : Line := ⟨[98], .lf⟩
+def altC : Line := ⟨[99], .lf⟩
+def altD : Line := ⟨[100], .lf⟩
+/-- `@@ -1,2 +1,2 @@  -a +b -c +d` -/
+def altHunk : Hunk := ⟨⟨1, 2⟩, ⟨1, 2⟩, [⟨MINUS, altA⟩, ⟨PLUS, altB⟩, ⟨MINUS, altC⟩, ⟨PLUS, altD⟩]⟩
+def altFile : List Line := [altA, altC]
+
+/-- the alternating hunk is NOT grouped: the old `C20_merge` said nothing about it -/
+example : grouped altHunk.lines = false := by decide
+
+theorem altValid : Valid altFile 0 0 [altHunk] :=
+  Valid.cons 0 0 altHunk [] 0 (by unfold Hunk.WF; decide) (by decide) (by decide) (by decide) (by decide) (by decide) (by decide)
+    (Valid.nil _ _ (by decide))
+
+example : splice altFile 0 [altHunk] = [altB, altD] := by decide
+
+/-- all hypotheses of `C20_merge` hold for the file `a c` and the hunk `-a +b -c +d`, for every non-empty symbol;
+    so with `-D sym` the output evaluates to `b d` when `sym` is defined and to `a c` when it is not -/
+example (sym : Bytes) (hsym : sym ≠ []) :
+    ∃ r, applyPatch altFile { hunks := [altHunk] } { define := sym } none = .ok r ∧
+      cppEval sym true (r.out.map Out.line) = some [altB, altD] ∧
+      cppEval sym false (r.out.map Out.line) = some [altA, altC] ∧
+      r.rejected = [] := by
+  have hs : splice altFile 0 [altHunk] = [altB, altD] := by decide
+  have := C20_merge altFile [altHunk] { hunks := [altHunk] } { define := sym } none sym altValid rfl hsym rfl rfl
+    (by show (0 : Int) ≤ 2; decide) (by decide) (by decide)
+    (by intro l hl
+        simp only [altFile, List.mem_cons, List.mem_nil_iff, or_false] at hl
+        rcases hl with rfl | rfl <;> exact notDirective_of_head sym _ _ _ (by decide))
+    (by intro h hh pl hpl
+        simp only [List.mem_cons, List.mem_nil_iff, or_false] at hh
+        subst hh
+        simp only [altHunk, List.mem_cons, List.mem_nil_iff, or_false] at hpl
+        rcases hpl with rfl | rfl | rfl | rfl <;> exact notDirective_of_head sym _ _ _ (by decide))
+  rw [hs] at this
+  exact this
+
+/-- the state machine itself on `-a +b -c +d`: it passes through all of inIfndef, inElseOfIfndef, inIfndef (again,
+    after `#endif` / `#ifndef`), inElseOfIfndef and ends with one open conditional -/
+example : (defineLoop altFile [88] altHunk.lines 0 .outside {}).map (fun r => (r.2.1, r.2.2)) =
+    some (2, DefState.inElseOfIfndef) := by decide
 
 end PatchModel.C20
